@@ -186,9 +186,9 @@ def run_config(ctx, gm, rng, coll, cont_kind, cobj, rarrs, qarrs, E, threads, re
 			out, big = make_out(rng, (n,), outk)
 			got = gm.jaccarddist_array(qarrs[qi], cobj, out=out)
 			ctx.count('calls:array'); ctx.count('cells', n); ctx.evals += 1
-			if out is not None and got is not out and not np.shares_memory(got, out):
-				ctx.violation('out-not-used', 'jaccarddist_array did not return/use the caller\'s buffer', w)
 			if not cmp_bits(ctx, got, exp, 'cell-bits', f'array[{cont_kind}]', w):
+				break
+			if out is not None and not cmp_bits(ctx, out, exp, 'cell-bits', f'array[{cont_kind}] (caller\'s buffer)', w):
 				break
 			check_canary(ctx, big, out, outk, 'array', w)
 			if r:
@@ -212,6 +212,8 @@ def run_config(ctx, gm, rng, coll, cont_kind, cobj, rarrs, qarrs, E, threads, re
 			got = gm.jaccarddist_matrix([qarrs[i] for i in qsel], cobj, ref_indices=ri, out=out, chunksize=csz)
 			ctx.count('calls:matrix'); ctx.count('cells', nq * len(cols)); ctx.evals += 1
 			if not cmp_bits(ctx, got, exp, 'cell-bits', f'matrix[{cont_kind},{ik},chunk={csz}]', w):
+				break
+			if out is not None and not cmp_bits(ctx, out, exp, 'cell-bits', f'matrix[{cont_kind},{ik},chunk={csz}] (caller\'s buffer)', w):
 				break
 			check_canary(ctx, big, out, outk, 'matrix', w)
 			if ri is not None and not np.array_equal(np.asarray(ri), np.asarray(ri_copy)):
@@ -242,6 +244,8 @@ def run_config(ctx, gm, rng, coll, cont_kind, cobj, rarrs, qarrs, E, threads, re
 			got = gm.jaccarddist_pairwise(cobj, indices=None if idx is None else (np.array(idx) if rng.random() < 0.5 else list(idx)), flat=flat, out=out)
 			ctx.count('calls:pairwise'); ctx.count('cells', int(np.prod(shape))); ctx.evals += 1
 			if not cmp_bits(ctx, got, exp, 'cell-bits', f'pairwise[{cont_kind},{ik},flat={flat}]', w):
+				break
+			if out is not None and not cmp_bits(ctx, out, exp, 'cell-bits', f'pairwise[{cont_kind},{ik},flat={flat}] (caller\'s buffer)', w):
 				break
 			if not flat and m:
 				if not np.array_equal(got.view('u4'), got.T.copy().view('u4')):
